@@ -89,6 +89,10 @@ def c01_jobs(tier):
                         jobs.append(job(ROOT, "HProtectRoundTrip", [s, role, hm, 0, k, 0]))
                     for i, k in enumerate(PAYLOAD_KINDS):
                         jobs.append(job(ROOT, "HProtectRoundTrip", [s, role, hm, 0, k, PAYLOAD_KINDS[(i + 3) % 15], 0]))
+    # payloads with several elements (selectors, proposals, attributes): generator tier 1
+    for i, k in enumerate((44, 45, 47, 48, 42) if tier == "quick" else (44, 45, 47, 48, 42, 33)):
+        for s in ((i % 9,) if tier == "quick" else (i % 9, (i + 4) % 9)):
+            jobs.append(job(ROOT, "HProtectRoundTrip", [s, i % 2, (i // 2) % 2, 1, k, 0], wall_ms=600000))
     # the upper end of the domain: one payload of up to 65535 octets (plain path; protected at 40000)
     for i, total in enumerate((32767, 32768, 40000, 65535, 65536, 70000)):
         jobs.append(job(ROOT, "HBigPayload", [-1, i % 2, i % 2, total], wall_ms=600000))
